@@ -239,3 +239,46 @@ def recv_paths(cx, fe):
                     rp.stops = True
         out.append(rp)
     return cls, f, out
+
+
+# ---------------------------------------------------------------------------------------------
+# loop-carried flag states of a receive loop
+def recv_loop_iterations(cx, fe, max_states=8):
+    """For a front-end whose receive method contains a `while` loop: the set of reachable values of the
+    loop-carried *flag locals* (locals assigned a constant before the loop) at the loop head, computed as a
+    fixpoint, and for every such state the enumerated paths of ONE iteration of the loop body.
+    -> (cls, f, loop node | None, [(state dict, [Path])])"""
+    from .paths import _UNKNOWN
+    name, cqn, ex, snd, recv, kind = fe
+    cls = cx.idx.cls(cqn)
+    f = cx.method(cls, recv)
+    loops = [n for n in ast.walk(f.node) if isinstance(n, ast.While)]
+    if not loops:
+        return cls, f, None, []
+    loop = loops[0]
+    # constants assigned to plain names before the loop (textually earlier, outside of it)
+    inside = set(id(n) for n in ast.walk(loop))
+    init = {}
+    for n in ast.walk(f.node):
+        if isinstance(n, ast.Assign) and id(n) not in inside and n.lineno < loop.lineno and len(n.targets) == 1 \
+                and isinstance(n.targets[0], ast.Name) and isinstance(n.value, ast.Constant):
+            init[n.targets[0].id] = n.value.value
+    res = SelfResolver(cx.idx, stop=lambda fn: fn.name in (ex, snd))
+    states, work, out = [], [dict(init)], []
+    while work:
+        s = work.pop()
+        if s in states:
+            continue
+        if len(states) >= max_states:
+            raise AnalysisError('receive loop of %s: more than %d flag states' % (f.qn, max_states))
+        states.append(s)
+        consts = {k: v for k, v in s.items() if v is not _UNKNOWN}
+        paths = cx.enum_region(f, cls, stmts=loop.body, resolver=res, may_raise=recv_may_raise, max_depth=2, consts=consts)
+        out.append((s, paths))
+        for p in paths:
+            if p.exit is not None and p.exit[0] in ('return', 'exc', 'break'):
+                continue
+            nxt = {k: p.env.get((0, k), _UNKNOWN) for k in s}
+            if nxt not in states and nxt not in work:
+                work.append(nxt)
+    return cls, f, loop, out
